@@ -230,13 +230,17 @@ def check_case(case, cfgs, timeout_ms=60000, want_witness=True):
         if case.assume:
             ctx.assume(case.assume(db))
         tr = time.time()
-        ref = dl.Reference(refprog, ctx, db.inputs, functors=case.functors)
-        ref_out = ref.run()
+        if case.judge in ("lattice", "choice"):
+            ref_out = {}
+            ref = None
+        else:
+            ref = dl.Reference(refprog, ctx, db.inputs, functors=case.functors)
+            ref_out = ref.run()
+            out["ref_iters"] = ref.iters
         out["ref_s"] = round(time.time() - tr, 2)
-        out["ref_iters"] = ref.iters
         out["db_vars"] = sum(len(v) for v in db.presence.values())
         # non-vacuity witness: some output can be non-empty
-        if want_witness:
+        if want_witness and ref_out:
             nonempty = g_or(*[g_not(r.is_empty()) for r in ref_out.values()])
             r, model = ctx.check(nonempty)
             out["witness"] = r
@@ -306,7 +310,19 @@ def replay_differ(case, cfg, facts, tag):
     fd = os.path.join(d, "facts")
     facts = {k: [tuple(t) for t in v] for k, v in facts.items()}
     write_facts(refprog, facts, fd)
-    rc, real, err = run_real(case.text, cfg, fd, os.path.join(d, "out"))
+    extra = ()
+    if getattr(case, "functor_lib", None):
+        from . import models
+        src = os.path.join(d, "functors.cpp")
+        os.makedirs(d, exist_ok=True)
+        with open(src, "w") as f:
+            f.write(models.FUNCTORS_CPP[case.functor_lib])
+        rcb, outb, errb = sh(["g++", "-std=c++17", "-shared", "-fPIC", "-O1", "-I", os.path.join(common.REPO, "src", "include"), src,
+                              "-o", os.path.join(d, "libfunctors.so")], timeout=300)
+        if rcb != 0:
+            raise EngineError("cannot build functor library for replay: " + errb[-300:])
+        extra = ("-L" + d, "-lfunctors")
+    rc, real, err = run_real(case.text, cfg, fd, os.path.join(d, "out"), extra=extra)
     info = []
     repro = False
     if rc != 0:
